@@ -1235,7 +1235,10 @@ func rawCase(r *prng.R, thorough bool) *caseProg {
 			}
 		}
 	}
-	return &caseProg{scripts: [][]byte{b, asm(opcode.PUSH1, opcode.PUSH2, opcode.THROW)}, gasLimit: int64(r.Range(0, 200000)), base: int64([]int{1, 30, 10000}[r.Intn(3)]), kind: "raw"}
+	base := int64([]int{1, 30, 10000}[r.Intn(3)])
+	// enough for a few thousand cheap instructions: random bytes loop easily
+	limit := int64(r.Intn(3000))*base/vm.ExecFeeFactorMultiplier + int64(r.Intn(3))
+	return &caseProg{scripts: [][]byte{b, asm(opcode.PUSH1, opcode.PUSH2, opcode.THROW)}, gasLimit: limit, base: base, kind: "raw"}
 }
 
 // generate builds case k.
@@ -1255,6 +1258,10 @@ func generate(r *prng.R, k int, thorough bool) *caseProg {
 	}
 	if r.Chance(1, 7) {
 		mutate(r, p)
+		// a mutation easily makes a loop: keep the gas close to what the generating run needed
+		if lim := 3*gas1*p.base/vm.ExecFeeFactorMultiplier + 200; p.gasLimit > lim {
+			p.gasLimit = lim
+		}
 	}
 	return p
 }
